@@ -255,7 +255,7 @@ def sortspec_cases(ctx):
   im = _impl()
   cols = ['id', 'A', '-A', 'B', '-B', 'manualSort', '-manualSort', '-id', '']
   obs = [None, 5, 0, ['A'], [], 1.5] + cols + [()]
-  for n in (1, 2, 3):
+  for n in ((1, 2, 3) if ctx.tier == 'thorough' else (1, 2)):
     obs.extend(itertools.product(['id', 'A', '-B', 'manualSort', '-id'], repeat=n))
   sbs = [None, '', 'A', '-A', 'id', 'manualSort', ('A',), (), 5, 0, ['A'], []]
   out = []
@@ -596,7 +596,7 @@ def gen_mapping_case(rng, im):
 def correspond_mappings(ctx):
   im = _impl()
   cases, lits = [], []
-  for _ in range(ctx.n(200, 6000)):
+  for _ in range(ctx.n(160, 6000)):
     try:
       case, lit, nontrivial, contains = gen_mapping_case(ctx.rng, im)
     except Unsupported as e:
@@ -1190,7 +1190,7 @@ def correspond_engine(ctx):
   im = _impl()
   tr_lits, tr_info, cell_lits, cell_info = [], [], [], []
   ctx._c13_failures = []
-  n_docs = ctx.n(12, 400)
+  n_docs = ctx.n(10, 400)
   for k in range(n_docs):
     sd = engine_seed(ctx, k)
     rng = random.Random(sd)
